@@ -183,7 +183,112 @@ func runC15(c *Ctx) {
 					}
 				}
 				c.verdict(c.fnKey(pf)+":filter-same-range", pf.Pos(), filterOK, "files are decompressed iff their offset lies in the downloaded range", "the decompress filter uses another bound than the downloaded range")
+				// early release of the waiters is decided on the size that is downloaded
+				isThreshold := func(v ssa.Value) bool {
+					for _, x := range append([]ssa.Value{v}, reachingVals(v)...) {
+						if _, ok := isFieldLoadAny(x, "PrefetchAsyncSize"); ok {
+							return true
+						}
+					}
+					return false
+				}
+				nCmp := 0
+				eachInstr(pf, func(i ssa.Instruction) {
+					b, ok := i.(*ssa.BinOp)
+					if !ok || (b.Op != token.GTR && b.Op != token.GEQ && b.Op != token.LSS && b.Op != token.LEQ) {
+						return
+					}
+					var other ssa.Value
+					if isThreshold(b.Y) {
+						other = b.X
+					} else if isThreshold(b.X) {
+						other = b.Y
+					}
+					if other == nil {
+						return
+					}
+					if _, isConst := stripConv(other).(*ssa.Const); isConst {
+						return // threshold > 0: feature switch
+					}
+					nCmp++
+					c.verdict(c.fnKey(pf)+":async-threshold-on-download-size", b.Pos(), strictSame(other, sizeArg), "the async threshold is compared with the size that is downloaded", "waiters are released early on a size that is not the one downloaded (landmark offset / blob-size cap applied later): WaitForPrefetchCompletion returns while a small, must-wait prefetch still runs")
+				})
+				if nCmp == 0 {
+					// no early release at all is fine; an unconditional explicit done() is not
+					for _, d := range callsIn(pf, idIs(lp+".(*waiter).done")) {
+						if _, isDefer := d.(*ssa.Defer); !isDefer {
+							c.bad(c.fnKey(pf)+":early-release", d.Pos(), "waiters are released early without comparing the download size with the async threshold")
+						}
+					}
+				}
 			}
+		}
+	}
+
+	// ---------- C15.f ----------
+	c.clause("C15.f", "T1", "the cache walk skips a regular file without caching it only as the TOC file at the layer root (or through the offset filter / an error)", 1)
+	if f := c.mustFn("fs/reader", "(*VerifiableReader).cacheWithReader"); f != nil {
+		tocName := c.constVal("estargz", "TOCTarName")
+		var cb *ssa.Function
+		for _, lit := range f.AnonFuncs {
+			for _, u := range literalUses(lit) {
+				if ci, ok := u.(*ssa.Call); ok && ci.Call.IsInvoke() && ci.Call.Method.Name() == "ForeachChild" {
+					cb = lit
+				}
+			}
+		}
+		if cb == nil {
+			c.bad(c.fnKey(f)+":walk", f.Pos(), "the walk no longer enumerates children through ForeachChild")
+		} else {
+			fvNamed := func(v ssa.Value, name string) bool {
+				p, ok := loadOf(stripConv(v))
+				if !ok {
+					return false
+				}
+				fv, ok := p.(*ssa.FreeVar)
+				return ok && fv.Name() == name
+			}
+			rootEq := condEdges(cb, func(cond ssa.Value) int {
+				b, ok := cond.(*ssa.BinOp)
+				if ok && b.Op == token.EQL && ((fvNamed(b.X, "dirID") && fvNamed(b.Y, "rootID")) || (fvNamed(b.X, "rootID") && fvNamed(b.Y, "dirID"))) {
+					return 1
+				}
+				return 0
+			})
+			nameEq := condEdges(cb, func(cond ssa.Value) int {
+				b, ok := cond.(*ssa.BinOp)
+				if !ok || b.Op != token.EQL {
+					return 0
+				}
+				for _, op := range []ssa.Value{b.X, b.Y} {
+					if s, ok := constString(op); ok && s == tocName && tocName != "" {
+						return 1
+					}
+				}
+				return 0
+			})
+			var regular []edge
+			for _, ci := range callsIn(cb, func(id string, _ ssa.CallInstruction) bool { return strings.HasSuffix(id, "FileMode).IsRegular") }) {
+				regular = append(regular, boolEdges(cb, ci.Value(), true)...)
+			}
+			offs := callsIn(cb, func(id string, ci ssa.CallInstruction) bool { return ci.Common().IsInvoke() && ci.Common().Method.Name() == "GetOffset" })
+			good := len(regular) > 0 && len(offs) > 0 && len(rootEq) > 0 && len(nameEq) > 0
+			detail := ""
+			if good {
+				for _, e := range regular {
+					first := cb.Blocks[e.from].Succs[e.succ].Instrs[0]
+					for _, cutE := range [][]edge{rootEq, nameEq} {
+						k := newCuts().addCalls(offs).addEdges(cutE)
+						if isReturn(first) {
+							good = false
+						} else if hit, path := reach(cb, first, isReturn, k); hit != nil {
+							good = false
+							detail = c.pathStr(cb, path)
+						}
+					}
+				}
+			}
+			c.verdict(c.fnKey(cb)+":skip-only-root-toc", cb.Pos(), good, "a regular file bypasses the caching steps only when dirID == rootID and name == "+tocName, "a regular file can be skipped by the prefetch/background-fetch walk without being the TOC file of the layer root: after a successful background fetch it is not readable offline "+detail)
 		}
 	}
 
